@@ -339,7 +339,29 @@ class SymExec:
             if decided is not None:
                 self.run(s.body if decided else s.orelse)
                 return
-            cond = self.cond_text(s.test)
+            test = s.test
+            if self.decide is not None and isinstance(test, ast.BoolOp):
+                # partial evaluation of a conjunction / disjunction: operands the option decides are dropped (or settle the test),
+                # provided the undecided ones are plain names (flags; no side effects are skipped by re-ordering)
+                is_and = isinstance(test.op, ast.And)
+                rest, settled = [], None
+                for v in test.values:
+                    d = self.decide(v, self)
+                    if d is None:
+                        rest.append(v)
+                    elif d != is_and:
+                        settled = d
+                if settled is not None and all(isinstance(v, (ast.Name, ast.Compare, ast.Attribute)) for v in rest):
+                    self.run(s.body if settled else s.orelse)
+                    return
+                if settled is None and rest and len(rest) < len(test.values):
+                    test = rest[0] if len(rest) == 1 else ast.BoolOp(op=test.op, values=rest)
+            cond = self.cond_text(test)
+            # a condition this path has already decided is not split again (if c: ... elif c and d: ... elif c: ...)
+            known = dict(self.path)
+            if cond in known and isinstance(known[cond], bool):
+                self.run(s.body if known[cond] else s.orelse)
+                return
             a = self._child()
             a.path = self.path + ((cond, True),)
             a.run(s.body)
